@@ -103,10 +103,11 @@ F_TStart       == <<S("RES", "WriteStarted"), S("SEND", "startCommandC")>>      
 F_TStop        == <<S("RES", "WriteStarted"), S("SEND", "stopCommandC")>>        \* Torrent.Stop
 F_addStopped(fx) == F_add(fx) \o <<S("RES", "Write")>> \o F_insert   \* addTorrentStopped
 F_removeClient(fx) == WLWU("mTorrents") \o <<S("EXT", "dht.RemoveInfoHash")>> \o DBTX                 \* removeTorrentFromClient
-                      \o (IF "reserveID" \in fx THEN WLWU("mTorrents") ELSE <<>>)                      \* deferred unreserveID
 F_tClose       == <<S("CLOSE", "closeC"), S("CHRECV", "doneC")>>   \* torrent.Close
-F_stopRemove   == F_tClose \o F_getPort                            \* stopAndRemoveData
-F_Remove(fx)   == F_removeClient(fx) \o F_stopRemove               \* RemoveTorrent
+\* stopAndRemoveData; the id reserved by removeTorrentFromClient is given back when the torrent is closed and its port released
+\* (deferred unreserveID: repair b13c049 of round 4 moved it here from removeTorrentFromClient, DESIGN 13)
+F_stopRemove(fx) == F_tClose \o F_getPort \o (IF "reserveID" \in fx THEN WLWU("mTorrents") ELSE <<>>)
+F_Remove(fx)   == F_removeClient(fx) \o F_stopRemove(fx)           \* RemoveTorrent
 F_loadExisting(fx) == <<S("RES", "Read")>> \o (IF "moveTorrent" \in fx THEN WLWU("mPorts") ELSE <<>>) \o F_insert   \* loadExistingTorrent
 
 F_updateStats  == <<S("RL", "mTorrents"), S("DBB", "Update"), E("RL", "mBitfield"), S("DBE", "Update"),
@@ -156,7 +157,7 @@ ProgV(op, fx) ==
       [] op = "Torrent.NotifyStop"     -> <<S("SEND", "notifyErrorCommandC"), S("CHRECV", "errCC")>>
       [] op = "Torrent.Move"           -> <<S("SEND", "stopCommandC"), S("RES", "Read")>> \o F_Remove(fx)
       [] op = "rpcHandler.handleMoveTorrent" ->
-             F_getPort \o (IF "moveTorrent" \in fx THEN RLRU("mTorrents") ELSE <<>>) \o F_removeClient(fx) \o F_stopRemove
+             F_getPort \o (IF "moveTorrent" \in fx THEN RLRU("mTorrents") ELSE <<>>) \o F_removeClient(fx) \o F_stopRemove(fx)
              \o <<S("RES", "Write")>> \o F_loadExisting(fx) \o F_TStart \o F_getPort
       \* goroutines started by the calls above
       [] op = "torrent.AddPeers"       -> <<S("SEND", "addPeersCommandC")>>
